@@ -178,6 +178,8 @@ class Module:
             raise RuntimeError(msg)
         # Special case(s)
         if key == "name":
+            if val is not None and not isinstance(val, str):
+                raise TypeError(f"Invalid Module name {val}, must be a string")
             return super().__setattr__(key, val)
 
         # Check it's a valid attribute-type
@@ -306,7 +308,10 @@ _banned = [
     "namespace",
     "add",
     "get",
+    "bundle_ports",
 ]
+# Names which can never denote a Module attribute: the protected ones, plus the Module's own `name`
+_reserved = _banned + ["name"]
 
 
 def _add(module: Module, val: ModuleAttr) -> ModuleAttr:
@@ -317,6 +322,11 @@ def _add(module: Module, val: ModuleAttr) -> ModuleAttr:
 
     if module._elaborated is not None:
         raise RuntimeError(f"Cannot add {val} to {module} after elaboration.")
+
+    # Reserved names denote the Module's own Python attributes and methods, however the attribute arrives here
+    if val.name in _reserved:
+        msg = f"Invalid name {val.name} for attribute {val} of {module}: reserved by `Module`"
+        raise RuntimeError(msg)
 
     # Sort out which of our type-based containers to add `val` to.
     if isinstance(val, Signal):
